@@ -21,6 +21,17 @@ LAYER_EXC = ['ValueError', 'KeyError', 'CustomError', 'AssertionError', 'TypeErr
 def gen_layer_faults(rng, world, n, kinds=('setUp', 'tearDown', 'nie'), p_occ=0.5):
     m = W.Model(world)
     plan = []
+    if n and 'nie' in kinds and 'tearDown' in kinds and rng.random() < 0.25:
+        # two tear-downs of one pass: the derived layer's fails, its base cannot be torn down
+        pairs = [(d['name'], b) for d in world['layers'] for b in sorted(m.closure(d['name']))
+                 if b != d['name'] and m.has_hook(d['name'], 'tearDown')
+                 and m.has_hook(b, 'tearDown')]
+        if pairs:
+            d_, b_ = rng.choice(pairs)
+            plan.append({'site': 'layer.tearDown', 'ident': d_, 'a': 'raise',
+                         'exc': rng.choice(LAYER_EXC[:6])})
+            plan.append({'site': 'layer.tearDown', 'ident': b_, 'a': 'raise',
+                         'exc': 'NotImplementedError'})
     for _ in range(n):
         k = rng.choice(kinds)
         hook = 'setUp' if k == 'setUp' else 'tearDown'
